@@ -358,6 +358,22 @@ func checkC06(c C06Case, o *h.Obs) *h.Fail {
 		if got.Malformed != "" || !got.Val().Equal(want) || got.Acc != 0 {
 			return h.Failf("public-mul", "Mul of %d x %d words under thresholds %v: got %v want %v", len(xw), len(yw), c.Thr, got, want)
 		}
+		// squaring in place at the operand's own precision, three times over: the results are rounded back to
+		// the operand's length while the receiver keeps the (much larger) buffer of the earlier full product
+		zp := uint(len(c.X))
+		zr := new(decimal.Decimal).SetPrec(zp)
+		zr.Mul(xd, yd)
+		wantR := model.Prod(xv, yv, uint64(zp), model.ToNearestEven).V
+		for round := 0; round <= 3; round++ {
+			if got := h.Read(zr); got.Malformed != "" || !got.Val().Equal(wantR) {
+				return h.Failf("public-sqr-inplace", "rounded product followed by %d in-place squarings of a %d-word value under thresholds %v is wrong", round, len(xw), c.Thr)
+			}
+			if wantR.Form != model.Finite {
+				break
+			}
+			wantR = model.Prod(wantR, wantR, uint64(zp), model.ToNearestEven).V
+			zr.Mul(zr, zr)
+		}
 	case "div":
 		yd := mk(yw, c.Y)
 		yv := model.MkFinite(false, c.Y, int64(len(c.Y)))
